@@ -99,6 +99,8 @@ def run(ctx):
     r10 = ctx.rule("C01.R10", "APPLY: constructor + _precompute + apply of the multiplicative appliers normfactor, lumi, staterror, shapesys, shapefactor and, with every interpolation code they accept, of normsys and histosys (cell value = the code's scalar reference function of that cell's down/nominal/up data and the modifier's own parameter, else the neutral element), interpreted END TO END (real ParamViewer/_TensorViewer/interpolators, list tensors) on 2 modifiers x 2 samples x 3 channels x 4 bins, unbatched and with 2 batch rows: the factor in cell (modifier, sample, row, bin) is the modifier's own parameter component for that bin in that row where the sample declares it, and exactly 1 elsewhere", "APPLY", floor=20)
     _apply_end_to_end(ctx, r10, reg)
     _apply_interpolating(ctx, r10, reg)
+    r12 = ctx.rule("C01.R12", "RATE: _MainModel constructed and evaluated END TO END over list tensors with recording appliers (two multiplicative appliers with two modifiers each, one additive applier, one applier without modifiers; 2 samples x 3 bins; unbatched and 2 batch rows; each clip on and off; by-sample and summed): rate[row][bin] = sum over samples of clipS?(prod over all factor cells x (nominal + sum over all delta cells)), then clipB? -- every axis reduction over the right axis", "RATE", floor=8)
+    _rate_end_to_end(ctx, r12)
     r11 = ctx.rule("C01.R11", "BUILD: _nominal_and_modifiers_from_spec interpreted END TO END with the real nominal builder and all seven modifier builders on a 3-channel (listed out of order) x 2-sample specification in which every modifier type occurs once or twice and one sample is absent from a channel: nominal rates and every builder tensor follow config.channels x config.samples; a cell is masked in exactly where the sample declares the modifier; undeclared cells carry the neutral data (nominal / 1 / 0); each applier receives its own type's modifiers, the configuration, its own builder data and the batch size", "BUILD", floor=9)
     _build_end_to_end(ctx, r11, reg)
 
@@ -760,3 +762,74 @@ def _apply_interpolating(ctx, rid, reg):
                         ctx.holds(rid, site, f"2 x 2 x {rows} x 4 cells: scalar reference of the cell's own data at the modifier's own parameter, {neutral} elsewhere")
                 except (Undecided, KeyError, TypeError, ValueError, IndexError, AttributeError) as e:
                     ctx.unrecognised(rid, cl, f"{cl.name} end to end [{code}, batch_size={bs}]", f"not interpretable: {type(e).__name__}: {e}")
+
+
+def _rate_end_to_end(ctx, rid):
+    import itertools as _it
+    from ..alg import NotHandled
+    repo = ctx.repo
+    mm = repo.cls(PDF, "_MainModel")
+    at, c = Poly.atom, Poly.const
+    nS, nB = 2, 3
+    appliers = {"fa": ("multiplication", 2), "fb": ("multiplication", 2), "da": ("addition", 1), "none": ("multiplication", 0)}
+    for bs, clipS, clipB, by_sample in _it.product((None, 2), (None, "CS"), (None, "CB"), (False, True)):
+        if by_sample and clipB:
+            continue
+        rows = bs or 1
+        lab = f"batch_size={bs} clip_sample={clipS} clip_bin={clipB} by_sample={by_sample}"
+
+        def cell(k, m, s_, r, b_):
+            return at(f"{k}{m}_s{s_}_r{r}_b{b_}")
+
+        def apply(recv, a, k):
+            if not (isinstance(recv, Obj) and recv.name in appliers):
+                raise NotHandled()
+            n = appliers[recv.name][1]
+            if n == 0:
+                return None
+            return listnp.T([[[[cell(recv.name, m, s_, r, b_) for b_ in range(nB)] for r in range(rows)] for s_ in range(nS)] for m in range(n)])
+
+        try:
+            w = viewers.world(repo, {".apply": apply})
+            w.module_env["log"] = Obj("log")
+            w.module_env["prob"] = Obj("prob")
+            w.add_class(mm)
+            mods = {k: Obj(k, {"op_code": op, "name": k}) for k, (op, n) in appliers.items()}
+            nominal = listnp.T([[[[at(f"nom_s{s_}_b{b_}") for b_ in range(nB)]] for s_ in range(nS)]])
+            inst = w.new(mm, [Obj("config"), mods, nominal], {"batch_size": None if bs is None else c(bs), "clip_sample_data": None if clipS is None else at(clipS), "clip_bin_data": None if clipB is None else at(clipB)})
+            pars = listnp.T([at("p0")]) if bs is None else listnp.T([[at("p0")], [at("p1")]])
+            out = w.call_method(inst, "expected_data", [pars], {"return_by_sample": by_sample})
+
+            def by_s(s_, r, b_):
+                v = Poly.const(1)
+                for k in ("fa", "fb"):
+                    for m in range(2):
+                        v = v * cell(k, m, s_, r, b_)
+                v = v * (at(f"nom_s{s_}_b{b_}") + cell("da", 0, s_, r, b_))
+                return fn("max", v, at(clipS)) if clipS else v
+
+            if by_sample:
+                want = [[[by_s(s_, r, b_) for b_ in range(nB)] for s_ in range(nS)] for r in range(rows)]
+            else:
+                want = []
+                for r in range(rows):
+                    row = []
+                    for b_ in range(nB):
+                        v = by_s(0, r, b_) + by_s(1, r, b_)
+                        row.append(fn("max", v, at(clipB)) if clipB else v)
+                    want.append(row)
+            if bs is None:
+                want = want[0]
+            g_, w_ = _strs(out), _strs(want)
+            if g_ == w_:
+                ctx.holds(rid, f"{PDF}::_MainModel.expected_data [{lab}]", f"shape {listnp._shape(out)}; rate formula cell by cell")
+            else:
+                ctx.violated(rid, mm.methods["expected_data"], f"expected rates [{lab}]", "the expected rates are not sum over samples of (product of all multiplicative cells) x (nominal + sum of all additive cells) with the requested clipping, bin by bin and row by row", expected=str(w_)[:600], found=str(g_)[:600])
+        except (Undecided, KeyError, TypeError, ValueError, IndexError, AttributeError) as e:
+            ctx.unrecognised(rid, mm, f"_MainModel [{lab}]", f"not interpretable: {type(e).__name__}: {e}")
+
+
+def _strs(v):
+    if isinstance(v, (list, tuple)):
+        return [_strs(x) for x in v]
+    return str(to_poly(v))
